@@ -107,6 +107,8 @@ Rings4  == Rings3 \cup {RingT(1, "%")}
 SymQuick == {"=", "."}
 NoMult  == {}
 Mult2   == {2}
+Mult3   == {3}
+NoRings == {}
 Mult13  == {1, 3}
 Mult123 == {1, 2, 3}
 Rings1  == {RingT(1, "d")}
